@@ -320,10 +320,14 @@ def _work_lattice(case):
             zi = zipfile.ZipInfo(f"m{i}/" if d else f"m{i}")
             zi.file_size, zi.compress_size = f, c
             infos.extend([zi] * k)                    # the stub may repeat one object; the real ZIP gets unique names
-            for _ in range(k):
-                ents.append(F.Entry(f"m{i}/" if d else f"m{i}", cd_file_size=f, cd_compress_size=c))
-                i += 1
+            if case.get("real", True):
+                for j in range(k):
+                    ents.append(F.Entry(f"m{i + j}/" if d else f"m{i + j}", cd_file_size=f, cd_compress_size=c))
+            i += k
         stub = _outcome(lambda: zb.validate_zipfile(_Stub(infos), limits=limits, source="c11"))
+        if not case.get("real", True):
+            res.append([stub, None, None, 0, 0])
+            continue
         data = F.raw_zip(ents)
         bio = io.BytesIO(data)
         poss = (0, 1, len(data) // 2, len(data), len(data) + 3, 7)
@@ -442,24 +446,57 @@ def _work_extract(case):
 
 
 # =========================================================================================== parent side
+_PENDING: list = []
+
+
 def _violating(run, ref, got, component, entries, lim, replay):
+    """Queue a decision mismatch; ``flush_pending`` names the mechanism once all of them are known."""
     m = margins(entries, lim)
     zero = any((not d) and f > 0 and c == 0 for f, c, d in entries)
     dirs = any(d for _, _, d in entries)
     if ref == {True} and got != "reject":
-        feat = "+".join([k for k in CLAUSES if m[k] > 0] + (["zero-compressed"] if zero else [])) or "none"
-        sym = "accepted" if got == "accept" else "raised-" + got[4:]
-        key = f"C11:{component}:exceeds-{feat}{'+dir-entries' if dirs else ''}:{sym}-instead-of-zip-bomb-error"
+        kind = "wrong-accept"
+        feats = frozenset([k for k in CLAUSES if m[k] > 0] + (["zero-compressed"] if zero else []))
+        sym = ("accepted" if got == "accept" else "raised-" + got[4:]) + "-instead-of-zip-bomb-error"
     elif ref == {False} and got != "accept":
-        feat = "+".join(k for k in CLAUSES if m[k] == 0)
-        feat = ("on-limit-" + feat) if feat else "clean"
-        sym = "rejected" if got == "reject" else "raised-" + got[4:]
-        key = f"C11:{component}:{feat}{'+dir-entries' if dirs else ''}:{sym}-within-limits"
+        kind = "wrong-reject"
+        feats = frozenset(k for k in CLAUSES if m[k] == 0)
+        sym = ("rejected" if got == "reject" else "raised-" + got[4:]) + "-within-limits"
     else:
         return False
-    run.violation(key, f"limits (entries,total,single,total-ratio,entry-ratio)={lim} entries(f,c,dir,count)={compress_runs(entries)[:12]} "
-                       f"margins={m}: spec says {'reject' if ref == {True} else 'accept'}, {component} -> {got}", replay)
+    what = (f"limits (entries,total,single,total-ratio,entry-ratio)={lim} entries(f,c,dir,count)={compress_runs(entries)[:12]} "
+            f"margins={m}: spec says {'reject' if ref == {True} else 'accept'}, {component} -> {got}")
+    _PENDING.append((component, kind, sym, feats, dirs, len(entries), what, replay))
     return True
+
+
+def flush_pending(run):
+    """Mechanism = the fewest clauses that explain all mismatches of one (component, symptom): greedy cover of the
+    sets of clauses that are exceeded (wrong accept) / sit exactly on their limit (wrong reject)."""
+    groups: dict = {}
+    for item in _PENDING:
+        groups.setdefault(item[:3], []).append(item)
+    del _PENDING[:]
+    for (component, kind, sym), items in sorted(groups.items()):
+        prefix = "exceeds-" if kind == "wrong-accept" else "on-limit-"
+        left = items
+        while left:
+            tally: dict = {}
+            for it in left:
+                for f in it[3]:
+                    tally[f] = tally.get(f, 0) + 1
+            if tally:
+                best = max(sorted(tally), key=lambda f: tally[f])
+                mine = [it for it in left if best in it[3]]
+                left = [it for it in left if best not in it[3]]
+                feat = prefix + best
+            else:                       # no clause is exceeded / on its limit
+                mine = [it for it in left if it[4]] or left
+                feat = "clean+directory-entries" if mine[0][4] else "clean"
+                left = [it for it in left if it not in mine]
+            mine.sort(key=lambda it: it[5])                       # smallest witness first
+            for it in mine:
+                run.violation(f"C11:{component}:{feat}:{sym}", it[6], it[7])
 
 
 def eval_lattice(run, case, obs, cells):
@@ -473,14 +510,19 @@ def eval_lattice(run, case, obs, cells):
         ref = ref_decide(entries, lim)
         rep = {"kind": "lattice", "lim": lim, "vectors": [runs], "base": case["base"] + vi}
         for comp, got in (("validate_zipfile[ZipInfo-stub]", stub), ("validate_zip_bytesio[forged-zip]", real), ("open_zipfile[forged-zip]", opened)):
+            if got is None:
+                continue
             _violating(run, ref, got, comp, entries, lim, rep)
             run.count("decisions_compared" if len(ref) == 1 else "decisions_unconstrained_by_statement")
-        if p1 != p0:
+        if real is None:
+            run.count("stub_only_vectors")
+        elif p1 != p0:
             cls = {"accept": "accepted", "reject": "rejected"}.get(real, "error")
             run.violation(f"C11:validate_zip_bytesio:{cls}-input:stream-position-changed",
                           f"stream at {p0} before validate_zip_bytesio ({real}), at {p1} after; limits={lim} entries={runs[:8]}", rep)
-        run.count("stream_position_checks")
-        run.count(f"position_checked_on_{real if real in ('accept', 'reject') else 'error'}_from_{'zero' if p0 == 0 else 'nonzero'}")
+        if real is not None:
+            run.count("stream_position_checks")
+            run.count(f"position_checked_on_{real if real in ('accept', 'reject') else 'error'}_from_{'zero' if p0 == 0 else 'nonzero'}")
         m = margins(entries, lim)
         for a, b in itertools.combinations(CLAUSES, 2):
             if abs(m[a]) <= 1 and abs(m[b]) <= 1:
@@ -512,10 +554,11 @@ def eval_extract(run, case, obs, per):
     ref = ref_decide(entries, lim)
     benign = v["name"] in ("plain", "pad")
     feature = "clean" if benign else ("bomb-shape-" if ref == {True} else "near-limit-") + v["name"]
+    shape = "clean" if benign else "bomb-shaped-input" if ref == {True} else "near-limit-input"
     events = obs["events"]
     for sym, why, idx in ziporder.check(events):
         tail = [f"{e['k']}#{e['z']}" + (f"({e['m']})" if e.get("m") else "") for e in events[max(0, idx - 6): idx + 2]]
-        run.violation(f"C11:{ext}:{feature}:{sym}", f"{case.get('fixture')} variant={v}: {why}; events around: {tail}", rep)
+        run.violation(f"C11:{ext}:{shape}:{sym}", f"{case.get('fixture')} variant={v}: {why}; events around: {tail}", rep)
     # stream position across validate_zip_bytesio inside an extractor
     stack = []
     for e in events:
@@ -561,10 +604,11 @@ def lattice_cases(run):
     cases = []
     cid = [0]
 
-    def emit(world, lim, vectors, chunk):
+    def emit(world, lim, vectors, chunk, real=True):
         vectors = list(vectors)
         for i in range(0, len(vectors), chunk):
-            cases.append({"kind": "lattice", "id": cid[0], "world": world, "lim": list(lim), "vectors": vectors[i:i + chunk], "base": rng.randrange(6)})
+            cases.append({"kind": "lattice", "id": cid[0], "world": world, "lim": list(lim), "vectors": vectors[i:i + chunk],
+                          "base": rng.randrange(6), "real": real})
             cid[0] += 1
 
     for wi, lim in enumerate(SMALL_WORLDS):
@@ -576,7 +620,8 @@ def lattice_cases(run):
         big = [v for v in vs if sum(r[3] for r in v) > 2000]
         small = [v for v in vs if sum(r[3] for r in v) <= 2000]
         world = f"set{si}" if si < len(SETTINGS) else "random"
-        emit(world, lim, big, 3)
+        # quick tier: 50 000-entry vectors become real ZIPs for the documented defaults only (0.7 s of CPU each)
+        emit(world, lim, big, 3, real=(not run.quick) or si == 0)
         emit(world, lim, small, 250)
     cases.sort(key=lambda c: -sum(sum(r[3] for r in v) for v in c["vectors"]))     # heavy chunks first
     return cases
@@ -648,6 +693,7 @@ def main(run):
     lat = lattice_cases(run)
     for case, obs in pool.run_cases("checks.c11:work", lat, deadline_s=240):
         eval_lattice(run, case, obs, cells)
+    flush_pending(run)
     n_lat = run.evaluations
     for case, obs in pool.run_cases("checks.c11:work", [{"kind": "garbage", "id": 0}], workers=1, deadline_s=60):
         for ln, out, p0, p1 in obs.get("res", []):
@@ -701,6 +747,7 @@ def replay(run, doc):
         if c["kind"] == "lattice":
             print("spec (admissible values of 'rejected'):", [sorted(ref_decide(expand(r), c["lim"])) for r in c["vectors"]])
             eval_lattice(run, c, obs, cells)
+            flush_pending(run)
         elif c["kind"] == "extract":
             for i, e in enumerate(obs.get("events", [])):
                 print(f"  event {i}: {e}")
